@@ -244,23 +244,27 @@ func readBufioSize(reader *bufio.Reader, size int64) ([]byte, error, bool) {
 }
 
 func readBufioLine(reader *bufio.Reader) ([]byte, error, bool) {
+	// a line ends at "\n" and nothing else is removed from it (a "\r" before it belongs to the line)
 	result := []byte{}
 	var buf []byte
 	var err error
-	var isprefix bool = true
-	for isprefix {
-		buf, isprefix, err = reader.ReadLine()
-		if err != nil {
+	for {
+		buf, err = reader.ReadSlice('\n')
+		result = append(result, buf...)
+		if err != bufio.ErrBufferFull {
 			break
 		}
-		result = append(result, buf...)
 	}
 	e := err
 	if e != nil && e == io.EOF {
 		e = nil
 	}
+	iseof := len(result) == 0 && err == io.EOF
+	if n := len(result); n > 0 && result[n-1] == '\n' {
+		result = result[:n-1]
+	}
 
-	return result, e, len(result) == 0 && err == io.EOF
+	return result, e, iseof
 }
 
 func int2Fb(val int) int {
